@@ -15,7 +15,7 @@ CLAIMED = {
             "Trusted: reference model in harness/src/props/plan.rs (ApiModel), snapshot accessors (read-only hooks).",
             "5/C02", "oxv"),
     "C03": ("proptest-generated worlds with walls thinner than the step; validity-query log coverage (oracle A) and dense re-check (oracle B) per path segment",
-            "For every segment of every returned path: (A) the logged, accepted validity queries lying on the segment leave no gap longer than the space's longest-valid-segment length; (B) an independent dense interpolation (L/64) through the pure world finds no invalid stretch >= L. Edge kinds (extension, RRT* rewired / chosen parent, RRT-Connect sides and junction, PRM start connection / milestone link) are classified and counted.",
+            "For every segment of every returned path: (A) the logged, accepted validity queries lying on the segment leave no gap longer than the space's longest-valid-segment length; (B) an independent dense interpolation (L/64) through the pure world finds no invalid stretch >= L. Edge kinds (extension, RRT* rewired / chosen parent, RRT-Connect sides and junction, PRM start connection / milestone link) are classified and counted; a second part grows RRT* trees over 3-6 solve calls with large neighbourhoods so that rewired and chosen-parent edges are on 80% of the returned paths.",
             "Trusted: the logging checker wrapper, the on-segment metric test with the tolerances of DESIGN.md section 4. Resolution fractions > 0 only.",
             "5/C03", "oxv"),
     "C04": ("proptest-generated bounded spaces (boxes, SO2 intervals of any span, SO3 cones, compounds) vs. independent reference membership",
@@ -62,15 +62,15 @@ CLAIMED.update({
             "Trusted: reference model (ApiModel) in harness/src/props/plan.rs and c08.rs. Three known findings (goal_bias outside [0,1] panics in random_bool) excluded by exact planner/op/message/file signature.",
             "5/C08", "oxv"),
     "C14": ("statistical PBT: KS / chi-square goodness of fit of 2e5-1e6 draws per generated bound setting against the exact marginal laws, alpha = 1e-9 with confirmation on a second seed",
-            "Per generated setting (48 quick / 360 thorough): Kolmogorov-Smirnov of every coordinate, angle, rotation angle (theta - sin theta law conditioned on the cone), axis z-component and azimuth against the exact CDF, sign symmetry of the quaternion, 8x8 chi-square for independence of consecutive marginals.",
-            "Statistical: cannot see biases below about 1%; asymptotic tail formulas; cones of radius < 0.3 not sampled.",
+            "Per generated setting (96 quick / 360 thorough; boxes of 1-20 dimensions, SO2 intervals incl. requests outside [-pi, pi], cones from 0.12 rad, compounds, SE2/SE3): Kolmogorov-Smirnov of every coordinate, angle, rotation angle (theta - sin theta law conditioned on the cone), axis z-component and azimuth against the exact CDF, sign symmetry of the quaternion, 8x8 chi-square for independence of every pair of marginals.",
+            "Statistical: cannot see biases below about 1%; asymptotic tail formulas; cones of radius < 0.12 rad not sampled (rejection sampling cost).",
             "5/C14", "oxv"),
     "C15": ("bounded-exhaustive explicit-state exploration of the real planners under a scripted sampler (all sample sequences to depth 4/6 over a 6-7 state alphabet, de-duplicated by tree snapshot) + stepwise random runs + chunked/timed runs; tree invariant after every iteration",
             "Every reachable tree (up to the stated depth over the stated alphabet and worlds; about 2e5 sequences in the quick tier) and every intermediate tree of several hundred random stepwise runs is checked: indices, single root, acyclic, root identity, node validity, every new or changed edge motion-checked (oracles A and B) and within the extension limit, RRT* cost >= branch length, returned path = parent walk. A hang of path extraction is reported as a violation by the watchdog.",
             "Exhaustive only over the stated alphabet / depth / worlds. Trusted: snapshot accessors, scripted sampler wrapper.",
             "5/C15", "oxv"),
     "C16": ("same exploration; per-iteration transition oracle from a reference model of one RRT / RRT-Connect / RRT* iteration; goal-bias frequency by Hoeffding bound on long seeded runs",
-            "For every explored transition: the new state equals the sample (within the step) or interpolate(nearest, sample, step/dist) bit for bit for some nearest node (ties allowed), it is added iff the iteration's first motion check passed (read from the ordered validity log), nothing else changes; RRT-Connect grows the smaller tree first and then extends the other toward the new node. Goal bias 0 / 1 exactly, p in (0,1) within the Hoeffding bound at 1e-9.",
+            "For every explored transition: the new state equals the sample (within the step) or interpolate(nearest, sample, step/dist) bit for bit for some nearest node (ties allowed), it is added iff the iteration's first motion check passed (read from the ordered validity log), nothing else changes; RRT-Connect grows the smaller tree first and then extends the other toward the new node (a missing connect attempt is a violation). Goal bias 0 / 1 exactly, p in (0,1) within the Hoeffding bound at 1e-9.",
             "Trusted: reference model in harness/src/props/trees.rs; the planner's own metric (decided by C09) is used to determine 'nearest'.",
             "5/C16", "oxv"),
     "C17": ("same exploration restricted to RRT* + stepwise random runs: bit-exact cost bookkeeping, arg-min parent modulo rejected motions, rewiring exactly when strictly cheaper; differential RRT vs RRT* on the same seed",
@@ -82,11 +82,11 @@ CLAIMED.update({
             "Trusted: roadmap snapshot accessor, sample budget hook, scripted / recording sampler.",
             "5/C18", "oxv"),
     "C19": ("Hypothesis-generated scenarios run through oxmpl_py and through the Rust core (persistent reference server), compared bit for bit; wrapper constructors over the C12 lattice",
-            "1600 (quick) / 16000 (thorough) generated scenarios (8 worker processes) over the six from_* variants x {RRT, RRTConnect, RRTStar}: outcome class and every float of the path as 64-bit patterns against the Rust core run on the same PlanCase; PRM paths checked for soundness against the Python callbacks (dense re-check through the core's interpolation); about 2000 wrapper constructor / getter / distance comparisons over the special-value lattice (ValueError <=> core Err).",
+            "1600 (quick) / 16000 (thorough) generated scenarios (8 worker processes) over the six from_* variants x {RRT, RRTConnect, RRTStar}, with resolution fractions inside and outside (0,1] and thin slabs whose crossing depends on the resolution: outcome class and every float of the path as 64-bit patterns against the Rust core run on the same PlanCase; PRM paths checked for soundness against the Python callbacks (dense re-check through the core's interpolation); about 2000 wrapper constructor / getter / distance comparisons over the special-value lattice (ValueError <=> core Err).",
             "Callbacks restricted to comparisons and the wrapped space.distance so that both languages compute bit-identical functions; examples that time out on either side are discarded and counted (run is inconclusive above 25%).",
             "5/C19", "py"),
     "C20": ("Hypothesis-generated fault plans (raise / None / non-bool, by region or at the k-th call) on validity and goal callbacks; metamorphic comparison with callbacks returning False at the same points",
-            "Run A (failing callbacks) versus run B (callbacks returning False exactly where A's failed), same seed: identical outcome and bit-identical path for RRT / RRT-Connect / RRT*; for region faults no state of the returned path lies in the fault region (all four planners).",
+            "Run A (failing callbacks) versus run B (callbacks returning False exactly where A's failed), same seed: identical outcome and bit-identical path for RRT / RRT-Connect / RRT*; for region faults (centred on a goal target, the start or a random state; radius from 1e-3 of the extent) no state of the returned path lies in the fault region (all four planners).",
             "Python bindings only: the JavaScript half of the anchor cannot be built or run in this sandbox.",
             "5/C20", "py"),
 })
